@@ -48,6 +48,8 @@ type sched struct {
 	Both        bool   `json:"both"`
 	BoundMs     int    `json:"boundMs"`
 	PauseMs     int    `json:"pauseMs"`     // pause between the writer's writes (request/response-like traffic)
+	Reverse     bool   `json:"reverse"`     // the accepting end writes and closes at once; the opening end only reads
+	ReuseBuf    bool   `json:"reuseBuf"`    // the writer hands every Write the same buffer and overwrites it as soon as Write returns
 	LateClose   bool   `json:"lateClose"`   // the writer stays idle and closes only after the reader has everything (or the deadline)
 	DupAckEvery int    `json:"dupAckEvery"` // every n-th acknowledgement frame (either direction) is delivered twice, for the whole life of the tube
 }
@@ -72,19 +74,36 @@ type reach struct {
 }
 
 var pauseOf = map[int]time.Duration{}
+var reuseOf = map[int]bool{}
 var pauseMu sync.Mutex
 
 func stream(id int, who string, wr io.Writer, sizes []int, tag byte, closer func() error) {
 	var off int64
 	pauseMu.Lock()
 	pause := pauseOf[id]
+	reuse := reuseOf[id]
 	pauseMu.Unlock()
+	var shared []byte
 	for i, n := range sizes {
 		if i > 0 && pause > 0 {
 			time.Sleep(pause)
 		}
 		w.Ev("write", "sc", id, "who", who, "off", off, "n", n)
-		k, err := wr.Write(gen(off, n, tag))
+		data := gen(off, n, tag)
+		if reuse {
+			// io.Writer: "Write must not retain p" - the caller's buffer is the caller's again once Write returns
+			if cap(shared) < n {
+				shared = make([]byte, n)
+			}
+			copy(shared[:n], data)
+			data = shared[:n]
+		}
+		k, err := wr.Write(data)
+		if reuse {
+			for j := range data {
+				data[j] = 0xEE
+			}
+		}
 		if err != nil || k != n {
 			w.Ev("writeerr", "sc", id, "who", who, "off", off, "n", n, "ret", k, "err", fmt.Sprint(err))
 			return
@@ -136,6 +155,7 @@ func run(id int, s sched, seed int64) {
 	rng := rand.New(rand.NewSource(seed + int64(id)*7919))
 	pauseMu.Lock()
 	pauseOf[id] = time.Duration(s.PauseMs) * time.Millisecond
+	reuseOf[id] = s.ReuseBuf
 	pauseMu.Unlock()
 	var mu sync.Mutex
 	start := time.Now()
@@ -229,6 +249,25 @@ func run(id int, s sched, seed int64) {
 	for _, k := range s.Sizes {
 		want += int64(k)
 	}
+	if s.Reverse {
+		wg.Add(2)
+		go func() { defer wg.Done(); stream(id, "B", tb, s.Sizes, 0xa5, tb.Close) }()
+		go func() { defer wg.Done(); totA, eofA = sink(id, "A", ta, ta.SetReadDeadline, 0xa5, deadline, -1) }()
+		if !waitUntil(&wg, deadline) {
+			w.Ev("done", "sc", id, "name", s.Name, "complete", "no", "why", "a Read or Write did not return by 5 s after its deadline", "ms", time.Since(start).Milliseconds(), "faults", faults, "outage", s.OutageMs)
+			go ma.Stop()
+			go mb.Stop()
+			return
+		}
+		c := "yes"
+		if totA != want || !eofA {
+			c = "no"
+		}
+		w.Ev("done", "sc", id, "name", s.Name, "complete", c, "ms", time.Since(start).Milliseconds(), "faults", faults, "outage", s.OutageMs, "gotB", totB, "gotA", totA, "want", want)
+		go func() { ta.Close(); ma.Stop() }()
+		go mb.Stop()
+		return
+	}
 	wg.Add(2)
 	// a local Close cancels the closer's own pending reads, so in two-way scenarios A closes only after it has
 	// read everything B wrote
@@ -266,7 +305,12 @@ func run(id int, s sched, seed int64) {
 			close(aRead)
 		}()
 	}
-	wg.Wait()
+	if !waitUntil(&wg, deadline) {
+		w.Ev("done", "sc", id, "name", s.Name, "complete", "no", "why", "a Read or Write did not return by 5 s after its deadline", "ms", time.Since(start).Milliseconds(), "faults", faults, "outage", s.OutageMs)
+		go ma.Stop()
+		go mb.Stop()
+		return
+	}
 	complete := totB == want && eofB && (!s.Both || totA == want)
 	_ = eofA
 	c := "yes"
@@ -276,6 +320,19 @@ func run(id int, s sched, seed int64) {
 	w.Ev("done", "sc", id, "name", s.Name, "complete", c, "ms", time.Since(start).Milliseconds(), "faults", faults, "outage", s.OutageMs, "gotB", totB, "gotA", totA, "want", want)
 	go func() { tb.Close(); ma.Stop() }()
 	go mb.Stop()
+}
+
+// waitUntil waits for the scenario's application goroutines; a call that has not returned 5 s after the read
+// deadline it was given means the transfer did not complete within the bound
+func waitUntil(wg *sync.WaitGroup, deadline time.Time) bool {
+	ch := make(chan struct{})
+	go func() { wg.Wait(); close(ch) }()
+	select {
+	case <-ch:
+		return true
+	case <-time.After(time.Until(deadline) + 5*time.Second):
+		return false
+	}
 }
 
 func max(a, b int) int {
